@@ -2,6 +2,8 @@
 //! properties: C16
 //! note: get_route's add_entry! (the relaxation step of the reverse Dijkstra): a candidate hop is refused if it would take the path over the caller's hop-count or total-CLTV limit, its contribution is capped by what the later hops can carry, and the path's htlc_minimum is met by the amount actually sent over it
 //! trusted: R15 (deep slices of a function-local macro_rules body): add_entry! inside get_route: the statements computing exceeds_max_path_length, exceeds_cltv_delta_limit, value_contribution_msat / contributes_sufficient_value, amount_to_transfer_over_msat and over_path_minimum_msat, verbatim as functions; R18: the macro's metavariables `$x` are alpha-renamed to identifiers `m_x` and bound as parameters; the candidate is a stub with blinded_hint_idx(); scoring, the heap update and everything else of the macro are dropped and not claimed
+//! trusted: R15 (deep slice): get_route: the per-hop statement that records the liquidity a collected path uses (the amount, the `and_modify` update and the `or_insert` value), verbatim as a function of the path value, the hop's next_hops_fee_msat and the amount already used (HashMap entry API dropped: the closure body is applied to the existing amount, the or_insert argument returned)
+//! assume: the amounts used on a hop fit u64 (the source adds them unchecked; they are bounded by max_htlc_from_capacity, LDK's own debug_assert after the statement)
 //! assume: the caller's max_total_cltv_expiry_delta is below u32::MAX, or the delta sum fits u32 (the sum saturates; with the limit at u32::MAX a saturated sum would not be refused)
 //! trusted: assume_specification for core::cmp::max / core::cmp::min (std definitions)
 use vstd::prelude::*;
@@ -68,6 +70,29 @@ impl Candidate { #[verifier::external_body] pub fn blinded_hint_idx(&self) -> (r
     let over_path_minimum_msat = amount_to_transfer_over_msat >= htlc_minimum_msat && amount_to_transfer_over_msat >=
 //@with
     let over_path_minimum_msat = amount_to_transfer_over_msat >= htlc_minimum_msat || amount_to_transfer_over_msat >=
+//@end
+// ---- get_route: what a collected path uses up on each of its hops (so that later paths do not count on the same liquidity) ----
+pub struct UsedHop { pub next_hops_fee_msat: u64 }
+//@extract lightning/src/routing/router.rs :: fn get_route
+//@slice R15
+    for (hop, _) in payment_path.hops.iter() { let spent_on_hop_msat = $e:seq; let used_liquidity_msat = used_liquidities .entry(hop.candidate.id()) .and_modify(|used_liquidity_msat| $m:seq) .or_insert($i:seq); let hop_capacity
+//@with
+    fn liquidity_used_on_hop(value_contribution_msat: u64, hop: &UsedHop, used_liquidity_msat: &mut u64) -> (u64, u64) {
+        let spent_on_hop_msat = $e;
+        $m;
+        (spent_on_hop_msat, $i)
+    }
+//@ret r
+//@requires
+    value_contribution_msat as int + hop.next_hops_fee_msat as int + *old(used_liquidity_msat) as int <= u64::MAX,
+//@ensures P C16 a-collected-path-uses-up-on-each-hop-the-amount-that-actually-crosses-it-its-value-plus-the-fees-of-the-later-hops
+    r.0 == value_contribution_msat + hop.next_hops_fee_msat,
+    *final(used_liquidity_msat) == *old(used_liquidity_msat) + value_contribution_msat + hop.next_hops_fee_msat,
+    r.1 == value_contribution_msat + hop.next_hops_fee_msat,
+//@mutant later_hops_fees_not_counted_as_used
+    let spent_on_hop_msat = value_contribution_msat + hop.next_hops_fee_msat;
+//@with
+    let spent_on_hop_msat = value_contribution_msat;
 //@end
 }
 fn main() {}
